@@ -27,12 +27,23 @@ def hash_contraction_a(inputs, output, size_dict):
         # hashing e.g. numpy int won't match!
         size_dict = {k: int(v) for k, v in size_dict.items()}
 
+    # pickle memoizes objects by identity, so make every occurrence of an index
+    # the same object, else equal contractions built from equal but distinct
+    # index objects (e.g. multi-character strings) would hash differently
+    canon = {}
+
+    def canonical(term):
+        return tuple(canon.setdefault(ix, ix) for ix in term)
+
     return hashlib.sha1(
         pickle.dumps(
             (
-                tuple(map(sortedtuple, inputs)),
-                sortedtuple(output),
-                sortedtuple(size_dict.items()),
+                tuple(sortedtuple(canonical(term)) for term in inputs),
+                sortedtuple(canonical(output)),
+                sortedtuple(
+                    (canon.setdefault(ix, ix), d)
+                    for ix, d in size_dict.items()
+                ),
             )
         )
     ).hexdigest()
